@@ -6,6 +6,7 @@ and the list of picture dictionaries it yielded is judged by a predicate that
 is computed independently (vlib/ref/rawfile.py: coded plane sizes and bit
 depths re-derived from (11.6.2)/(11.6.3)).
 """
+import enum
 import os
 import random
 import warnings
@@ -222,6 +223,7 @@ def run_case(case, ctx):
     except Exception as e:
         ctx.violation("c22:dimensions-and-depths-exception:" + type(e).__name__, "%r [%s]" % (e, fmt_desc))
 
+    plain_ints = rng.random() < 0.25
     for name in GENERATORS:
         if name == "real_pictures" and not getattr(ctx, "real_pictures_ok", False):
             continue
@@ -235,8 +237,15 @@ def run_case(case, ctx):
                 kwargs = {"num_frames": nf}
         # fresh copies: a generator must not be able to influence the next one through its arguments
         vp = genf.to_video_parameters(vpd)
+        pcm_arg = pcm_e
+        if plain_ints:
+            # the same format with every enumerated value given as a plain int (what a parsed sequence header holds)
+            for _k in list(vp):
+                if isinstance(vp[_k], enum.IntEnum):
+                    vp[_k] = int(vp[_k])
+            pcm_arg = int(pcm_e)
         try:
-            pictures = list(g(vp, pcm_e, **kwargs))
+            pictures = list(g(vp, pcm_arg, **kwargs))
         except Exception as e:
             import traceback
 
@@ -250,6 +259,8 @@ def run_case(case, ctx):
             ctx.count("gen_exceptions:" + name)
             ctx.seen(jsonx.key_hash([vpd, pcm, name, kwargs]))
             continue
+        if plain_ints:
+            ctx.count("gen_calls_with_plain_int_enums")
         if dict(vp) != dict(genf.to_video_parameters(vpd)):
             ctx.violation("c22:%s:mutated-video-parameters" % name, "%s changed its video_parameters argument [%s]" % (name, fmt_desc))
         _judge(name, pictures, lay, pcm, ctx, fmt_desc)
